@@ -155,7 +155,9 @@ func sameExpr(a, b ssa.Value, depth int) bool {
 		if !ok {
 			return false
 		}
-		eq := func(p, q ssa.Value) bool { return (p == nil && q == nil) || (p != nil && q != nil && sameExpr(p, q, depth+1)) }
+		eq := func(p, q ssa.Value) bool {
+			return (p == nil && q == nil) || (p != nil && q != nil && sameExpr(p, q, depth+1))
+		}
 		return sameExpr(x.X, y.X, depth+1) && eq(x.Low, y.Low) && eq(x.High, y.High)
 	case *ssa.FieldAddr:
 		return sameAddr(a, b)
